@@ -290,23 +290,20 @@ theorem tcp_client_to_server_end_to_end (A : Spec.AeadFns) (hA : Spec.AeadLaws32
   simpa using this
 
 open Mieru.TcpSession in
-/-- the server session right after the underlay handed it the client's open request carrying `p`:
-    it has queued the open-session response (sequence number 0) and is ESTABLISHED -/
-def serverAccepted (p : Bytes) : List TcpSession.Seg × Sess := input Sess.server ⟨.openReq, 0, 0, none, p⟩
-
-open Mieru.TcpSession in
-/-- **Server → client.**  The server answers the open request with the open-session response and
-    its application runs any program of `Write` / `Close` calls; `r0` is the client session in any
-    state in which it has not yet received anything (it may have written any amount, it may never
-    have read).  Conclusion as above, for the other direction — both directions hold at once, each
-    under its own hypotheses, because they share no state but the key. -/
+/-- **Server → client.**  The server session is handed to the application by `Accept` BEFORE its
+    input loop has processed the open request, so `ops` is any program of `Write` / `Close` calls
+    with the processing of the open request (`Op.accept`, which queues the open-session response)
+    at ANY position among them — the application's first writes may be numbered before the
+    response.  `r0` is the client session in any state in which it has not yet received anything
+    (it may have written any amount, it may never have read).  Conclusion as above, for the other
+    direction — both directions hold at once, each under its own hypotheses, because they share no
+    state but the key. -/
 theorem tcp_server_to_client_end_to_end (A : Spec.AeadFns) (hA : Spec.AeadLaws32 A)
-    (sid : Nat) (hsid : sid < 2 ^ 32) (p : Bytes) (ops : List Op)
-    (hcount : ((serverAccepted p).1 ++ (run (serverAccepted p).2 ops).1).length ≤ 2 ^ 32)
-    (ws : List Wrap) (hwl : ws.length = ((serverAccepted p).1 ++ (run (serverAccepted p).2 ops).1).length)
-    (hws : ∀ q ∈ ((serverAccepted p).1 ++ (run (serverAccepted p).2 ops).1).zip ws, q.2.ok q.1.le)
-    (mine : List (Spec.Segment × Bool))
-    (hmine : wrapAll false sid ((serverAccepted p).1 ++ (run (serverAccepted p).2 ops).1) ws = some mine)
+    (sid : Nat) (hsid : sid < 2 ^ 32) (ops : List Op)
+    (hcount : (run Sess.server ops).1.length ≤ 2 ^ 32)
+    (ws : List Wrap) (hwl : ws.length = (run Sess.server ops).1.length)
+    (hws : ∀ q ∈ (run Sess.server ops).1.zip ws, q.2.ok q.1.le)
+    (mine : List (Spec.Segment × Bool)) (hmine : wrapAll false sid (run Sess.server ops).1 ws = some mine)
     (others l : List (Spec.Segment × Bool))
     (ho : ∀ x ∈ others, x.1.wf ∧ TcpSession.Spec.Meta.sessionID x.1.md ≠ sid) (hm : Merge mine others l)
     (t : Spec.Tx) (hk : t.key.length = 32) (hn : t.nonce.length = 24) (cands : List Bytes)
@@ -317,20 +314,14 @@ theorem tcp_server_to_client_end_to_end (A : Spec.AeadFns) (hA : Spec.AeadLaws32
     (es : List Ev)
     (harr : arrivals es = TcpSession.forSession sid (chunks.foldl (Spec.feed A) (Spec.Rx.new cands)).out) :
     (chunks.foldl (Spec.feed A) (Spec.Rx.new cands)).dead = none ∧
-    TcpSession.forSession sid (chunks.foldl (Spec.feed A) (Spec.Rx.new cands)).out
-      = (serverAccepted p).1 ++ (run (serverAccepted p).2 ops).1 ∧
-    (runEv r0 es).1.flatten ++ (runEv r0 es).2.pending = accepted (serverAccepted p).2 ops ∧
+    TcpSession.forSession sid (chunks.foldl (Spec.feed A) (Spec.Rx.new cands)).out = (run Sess.server ops).1 ∧
+    (runEv r0 es).1.flatten ++ (runEv r0 es).2.pending = accepted Sess.server ops ∧
     (runEv r0 es).2.inErr = false ∧
-    ((∃ g ∈ (run (serverAccepted p).2 ops).1, g.kind = .closeReq) → (runEv r0 es).2.st = .closed) :=
-  tcp_direction_end_to_end A hA false sid hsid (serverAccepted p).1 (serverAccepted p).2
-    (by simp [serverAccepted, input, Sess.server, Sess.open]) rfl rfl
-    (by
-      intro g hg
-      have : g = ⟨.openResp, 0, 0, none, []⟩ := by simpa [serverAccepted, input, Sess.server] using hg
-      subst this
-      exact ⟨Or.inl ⟨by simp, rfl, rfl, by simp⟩, Or.inr (Or.inl rfl), rfl⟩)
-    ops hcount ws hwl hws mine hmine others l ho hm t hk hn cands hc hsync bytes hs chunks hch r0 hr1 hr2 hr3 hr4 hr5
-    es harr
+    ((∃ g ∈ (run Sess.server ops).1, g.kind = .closeReq) → (runEv r0 es).2.st = .closed) := by
+  have := tcp_direction_end_to_end A hA false sid hsid [] Sess.server (by decide) rfl rfl (by simp) ops
+    (by simpa using hcount) ws (by simpa using hwl) (by simpa using hws) mine (by simpa using hmine) others l ho hm
+    t hk hn cands hc hsync bytes hs chunks hch r0 hr1 hr2 hr3 hr4 hr5 es harr
+  simpa using this
 
 open Mieru.TcpSession in
 /-- **A reader that sees end-of-stream has read everything**: `Read` reports EOF only when
@@ -339,6 +330,20 @@ open Mieru.TcpSession in
 theorem tcp_eof_means_everything (r : Sess) (n : Nat) (r' : Sess) (readSoFar written : Bytes)
     (hinv : readSoFar ++ r.pending = written) (h : read r n = (.eof, r')) : readSoFar = written := by
   rw [← hinv, read_eof r r' n h, List.append_nil]
+
+open Mieru.TcpSession in
+/-- **A short read ends on a segment boundary**: a `Read` that returns fewer bytes than its buffer
+    holds has taken everything that had arrived, so the bytes delivered so far are exactly the
+    payloads of the segments that arrived so far.  (This is what the harness's trace acceptor
+    `acceptTrace` checks on the real `Session.Read`.) -/
+theorem short_read_ends_on_segment_boundary (delivered : Bytes) (arrived : List TcpSession.Seg) (s s' : Sess)
+    (n : Nat) (b : Bytes) (hinv : delivered ++ s.pending = (arrived.map (·.payload)).flatten)
+    (h : read s n = (.data b, s')) (hlt : b.length < n) :
+    delivered ++ b = (arrived.map (·.payload)).flatten ∧ s'.pending = [] := by
+  obtain ⟨h1, _, h3⟩ := (read_spec s n).1 b s' h
+  have := h3 hlt
+  rw [this, List.append_nil] at h1
+  exact ⟨by rw [h1]; exact hinv, this⟩
 
 open Mieru.TcpSession in
 /-- **The open-request piggyback boundary** (1024 / 1025, and never with low entropy), for every
@@ -402,14 +407,6 @@ def t0 : Spec.Tx := ⟨key, List.replicate 24 7, false⟩
 def other : Spec.Segment × Bool :=
   (⟨.data ⟨6, 29836258, 8, 1, 0, 256, 0, 1, 2, 0⟩, [0xEE, 0xFF], [9], []⟩, false)
 
-theorem toy32 : Spec.AeadLaws32 Spec.toyAead where
-  seal_len k n p _ _ := by simp [Spec.toyAead, Spec.toyTag_len]
-  open_seal k n p _ _ := by
-    simp only [Spec.toyAead, List.length_append, Spec.toyTag_len]
-    have h1 : p.length + 16 - 16 = p.length := by omega
-    rw [h1, List.drop_left' rfl, List.take_left' rfl]
-    simp
-
 example : (run Sess.client prog).1 = [⟨.openReq, 0, 0, none, [1, 2, 3]⟩, ⟨.closeReq, 1, 0, none, []⟩] ∧
     accepted Sess.client prog = [1, 2, 3] := by decide
 
@@ -442,7 +439,7 @@ example (mine : List (Spec.Segment × Bool)) (hmine : wrapAll true 7 (run Sess.c
     intro k hk hne
     simp only [Spec.Rx.new, List.mem_singleton] at hk
     exact absurd hk hne
-  have := tcp_client_to_server_end_to_end Spec.toyAead toy32 7 (by decide) prog (by decide) [w, w] (by decide) hws
+  have := tcp_client_to_server_end_to_end Spec.toyAead Spec.toy_laws32 7 (by decide) prog (by decide) [w, w] (by decide) hws
     mine hmine [other] [m0, other, m1]
     (by
       intro x hx
@@ -454,6 +451,13 @@ example (mine : List (Spec.Segment × Bool)) (hmine : wrapAll true 7 (run Sess.c
     (bytes.map (fun b => [b])) (by simp [List.flatten_eq_flatMap, List.flatMap_map]) es harr
   obtain ⟨_, _, h3, _, h5⟩ := this
   exact ⟨by rw [h3]; decide, h5 ⟨⟨.closeReq, 1, 0, none, []⟩, by decide, rfl⟩⟩
+
+-- a server application that writes before its input loop has processed the open request: the data
+-- segment is numbered 0 and the open-session response 1; the client still reads exactly the bytes
+example : (run Sess.server [.write none (fun _ => none) [7, 7], .accept [], .write none (fun _ => none) [8], .close]).1
+    = [⟨.data, 0, 0, none, [7, 7]⟩, ⟨.openResp, 1, 0, none, []⟩, ⟨.data, 2, 0, none, [8]⟩, ⟨.closeReq, 3, 0, none, []⟩] ∧
+    accepted Sess.server [.write none (fun _ => none) [7, 7], .accept [], .write none (fun _ => none) [8], .close]
+      = [7, 7, 8] := by decide
 
 -- the piggyback boundary, instantiated: 1024 bytes ride in the open request, 1025 do not
 example (b : Bytes) (h : b.length = 1024) (les : Nat → Option LE) :
